@@ -346,3 +346,19 @@ class ConnWorld:
                     total += 60
         self.ev.append(dict(ev="end", healed=heal_after is not None, left=self.left(), ticks=tick))
         return self.ev
+
+
+class FnPolicy:
+    """Scripted environment given as functions (used to replay the counterexamples of the known findings deterministically)."""
+
+    def __init__(self, sends=None, fate=None, replays=None):
+        self._s, self._f, self._r = sends, fate, replays
+
+    def sends(self, tick, name, world):
+        return self._s(tick, name, world) if self._s else []
+
+    def fate(self, tick, name, dgid, world):
+        return self._f(tick, name, dgid, world) if self._f else [0]
+
+    def replays(self, tick, name, world):
+        return self._r(tick, name, world) if self._r else []
